@@ -8,7 +8,7 @@
                   claimable_b (the un-claimed comments lie in the field's range) before the claim that follows an
                   unclaim_interleaving_comments, file_cover_b before the root File's own claim_interleaving_comments()
                   (what the children left unclaimed lies in the File's range). *)
-From AB Require Import Prelude Comments CommentsRange CommentsRule.
+From AB Require Import Prelude Comments CommentsRange CommentsRule CommentsPlacement.
 
 (* o_order: token ids in store order after the call (None: same order as before it); o_claimed: ids of the
    tokens whose claimed flag is set, in store order *)
@@ -96,6 +96,26 @@ Definition restore_inter_hyp (st : doc * table) (o : eop) (next : list step) : b
   | _, _ => false
   end.
 
+(* hypotheses and conclusions of CommentsPlacement.claim_placement at every claim_interleaving_comments call: the
+   placeholder is a Placeholder of the store, the items lie in order behind it; and - evaluated on the token ORDER THE
+   IMPLEMENTATION REPORTS after the call (o_order), not on the model's - the returned entries lie in order behind the
+   placeholder and no placeholder stands between the field and the comments it claimed in front / behind *)
+Definition reorder (l : list Z) (d : doc) : doc := flat_map (fun i => filter (fun t => t_id t =? i) d) l.
+Definition placement_ok (st : doc * table) (k : step) : bool :=
+  match k_op k with
+  | EC (OClaimInter _ ph items mf ml flt) =>
+    let d := fst st in
+    ph_ok_b d ph && items_behind_b d ph items &&
+    match claimer_claim d ph items mf ml flt with
+    | (Ok _, d') =>
+      let dobs := match o_order (k_obs k) with Some l => reorder l d' | None => d' end in
+      let '(cb, _, ca) := claim_parts d ph items mf ml flt in
+      items_behind_b dobs ph (claim_items d ph items mf ml flt) && tight_b dobs ph (rep_last ph items) cb ca
+    | (Err _, _) => true
+    end
+  | _ => true
+  end.
+
 (* hypothesis of file_claim_all_claimed / idempotent_file at the root File's own claim (no explicit list) *)
 Definition file_hyp (st : doc * table) (o : eop) : bool :=
   match o with
@@ -112,6 +132,7 @@ Fixpoint hyp_steps (st : doc * table) (l : list step) : bool :=
     && (if k_mode k =? 2 then restore_hyp st (k_op k) r else true)
     && (if k_mode k =? 3 then restore_inter_hyp st (k_op k) r else true)
     && (if (k_mode k =? 4) || (k_mode k =? 5) then file_hyp st (k_op k) else true)
+    && placement_ok st k
     && hyp_steps (snd (estep_obs st (k_op k))) r
   end.
 
